@@ -8,7 +8,7 @@ from mashumaro.codecs.basic import BasicDecoder
 
 from vf import arb, oracle, symval
 from vf.hlib import call, fail
-from vf.props.common import deep_eq, key_universe, leaf_strings
+from vf.props.common import deep_eq, key_universe, known_defect_suffix, leaf_strings
 
 
 class S_:
@@ -47,9 +47,11 @@ def main(S, env):
     st_o, o = call(oracle.ref_decode, S.RT, d)
     if st_r == "ok":
         if st_o != "ok":
-            return fail(S.prefix + "/accepted-but-reference-rejects", input=d, result=r, ref_exc=o)
+            k = known_defect_suffix(S.RT, d, r)
+            return fail(S.prefix + "/" + (k or "accepted-but-reference-rejects"), input=d, result=r, ref_exc=o)
         if not deep_eq(r, o):
-            return fail(S.prefix + "/result-differs", input=d, result=r, reference=o)
+            k = known_defect_suffix(S.RT, d, r)
+            return fail(S.prefix + "/" + (k or "result-differs"), input=d, result=r, reference=o)
         if not oracle.conforms(S.RT, r):
             return fail(S.prefix + "/not-conforming", input=d, result=r)
     elif st_o == "ok":
